@@ -320,6 +320,9 @@ public:
             throw nix::InvalidDimension("The ticks of a range dimension must not be empty!",
                                         "DataArray::appendRangeDimension");
         }
+        if (!std::is_sorted(ticks.begin(), ticks.end())) {
+            throw UnsortedTicks("DataArray::appendRangeDimension");
+        }
         if (unit.size() > 0 && !util::isSIUnit(unit)) {
             throw InvalidUnit("Unit is not an atomic SI. Note: So far composite units are not supported",
                               "DataArray::appendRangeDimension");
@@ -375,6 +378,9 @@ public:
      */
     SampledDimension appendSampledDimension(double sampling_interval, const std::string &label="",
                                             const std::string &unit="", double offset=0.0) {
+        if (!(sampling_interval > 0.0)) {
+            throw std::runtime_error("DataArray::appendSampledDimension: Sampling intervals must be larger than 0.0!");
+        }
         if (unit.size() > 0 && !util::isSIUnit(unit)) {
             throw InvalidUnit("Unit is not a SI unit. Note: so far, only atomic SI units are supported.",
                               "DataArray::appendSampledDimension");
@@ -385,7 +391,7 @@ public:
             dim.label(label);
         if (unit.size() > 0)
             dim.unit(unit);
-        if (offset > 0.0)
+        if (offset != 0.0)
             dim.offset(offset);
         return dim;
     }
